@@ -15,13 +15,14 @@ Variable cap : nat.
 Variable lam : fev -> N.
 Variable vals : list (N * N).
 Hypothesis Hvals : vals_ok vals.
+Variable K : N.
 
 Notation ws := (map snd vals).
 Notation nv := (length vals).
 Notation q := (ElectionSpec.quorum_of ws).
 Notation fcn := (fc_n ws q).
 Notation ae := (to_aevent lam vals).
-Notation Sim := (Sim lam vals).
+Notation Sim := (Sim lam vals K).
 Notation decideT T f := (decide node nd_id nd_cr nd_fr nd_spf fcn ws q (canon_order vals) T f (max_frame node nd_fr T)).
 
 (* the reference's verdict on an accepted event carries the highest allowed frame *)
@@ -47,12 +48,12 @@ Qed.
 
 (* ---------- the run ---------- *)
 Lemma run_sim : forall D i T Dr B, Sim i T Dr B -> codes_ok (snd (add_events vals T D)) ->
-  (forall e, In e D -> id_fresh (eid (fe e))) -> few_forkers vals (fst (add_events vals T D)) ->
-  l_ctr (i_st i) + N.of_nat (length D) < 2 ^ 192 ->
+  (forall e, In e D -> id_fresh K (eid (fe e))) -> few_forkers vals (fst (add_events vals T D)) ->
+  l_ctr (i_st i) + N.of_nat (length D) < 2 ^ 192 -> l_ctr (i_st i) + N.of_nat (length D) <= K ->
   exists i' B', render (run cap [] sample i (abft_ops lam vals D)) = (snd (add_events vals T D), B') /\
     Sim i' (fst (add_events vals T D)) (rev D ++ Dr) (B ++ B').
 Proof.
-  induction D as [|e D IH]; intros i T Dr B HS Hc Hf Hff Hctr.
+  induction D as [|e D IH]; intros i T Dr B HS Hc Hf Hff Hctr HK.
   - exists i, []. cbn. rewrite app_nil_r. split; [reflexivity | exact HS].
   - cbn [add_events] in *. destruct (add_event vals T e) as [T1 r] eqn:AE.
     pose proof (add_events_incl D T1) as Inc.
@@ -62,16 +63,17 @@ Proof.
     pose proof (add_event_high T e T1 h AE) as Hh.
     destruct (add_event_accept vals T e T1 h AE) as (-> & PK & NL & CR & EW & FO).
     (* Build *)
-    destruct (build_step cap lam vals Hvals i T Dr B e HS PK CR EW NL FO ltac:(cbn [length] in Hctr; lia)) as [i1 [EB [HS1 Ct1]]].
+    destruct (build_step cap lam vals Hvals K i T Dr B e HS PK CR EW NL FO ltac:(cbn [length] in Hctr; lia) ltac:(cbn [length] in HK; lia)) as [i1 [EB [HS1 Ct1]]].
     (* Process *)
     assert (Hff1 : few_forkers vals (mk_node nv T e :: T)) by (eapply few_forkers_sub; [exact Inc | exact Hff]).
-    destruct (process_step cap lam vals Hvals i1 T Dr B e HS1 (Hf e (or_introl eq_refl)) PK NL CR EW FO Hff1)
+    destruct (process_step cap lam vals Hvals K i1 T Dr B e HS1 (Hf e (or_introl eq_refl)) PK NL CR EW FO Hff1)
       as [bl [i2 [EP [HS2 Ct2]]]].
     destruct (IH i2 (mk_node nv T e :: T) (e :: Dr) (B ++ map blk_obs bl) HS2) as [i' [B' [ER HS']]].
     { rewrite AEs. cbn [snd]. intros r Hr. apply Hc. right. exact Hr. }
     { intros e0 He0. apply Hf. right. exact He0. }
     { rewrite AEs. exact Hff. }
     { cbn [length] in Hctr. lia. }
+    { cbn [length] in HK. lia. }
     rewrite AEs in ER, HS'. cbn [fst snd] in ER, HS'.
     exists i', (map blk_obs bl ++ B'). split.
     + change (abft_ops lam vals (e :: D)) with (OpB (ae e) :: OpP (ae e) :: abft_ops lam vals D).
@@ -99,6 +101,7 @@ Proof.
       * unfold choose_atropos, el_reset. cbn [el_vals el_decided el_frame]. destruct vals as [|[x w] t]; [cbn in Hnv; lia | reflexivity].
     + intros m g _ Hm. destruct Hm.
   - intros e [].
+  - lia.
   - intros id. reflexivity.
   - constructor.
   - intros b [].
@@ -152,11 +155,12 @@ Proof.
       destruct (add_event vals [] e0) as [T1 r] eqn:AE. destruct (add_events vals T1 D0) as [T2 rs].
       cbn [snd] in Hacc. assert (Hr : fst r = 0) by (apply Hacc; left; reflexivity). destruct r as [c h]. cbn in Hr. subst c.
       destruct (add_event_accept vals [] e0 T1 h AE) as (_ & _ & _ & CR & _). lia. }
-    destruct (run_sim cap lam vals Hvals D (start 1 vals) [] [] [] (Sim_start lam vals Hvals Hnv) Hacc Hfresh Hff) as [i' [B' [ER HS]]].
+    destruct (run_sim cap lam vals Hvals (N.of_nat (length D)) D (start 1 vals) [] [] [] (Sim_start lam vals Hvals _ Hnv) Hacc Hfresh Hff) as [i' [B' [ER HS]]].
+    { cbn [start i_st genesis l_ctr]. lia. }
     { cbn [start i_st genesis l_ctr]. lia. }
     unfold abft_run. rewrite ER. unfold reference. unfold table in Hff.
     destruct (add_events vals [] D) as [T rs] eqn:AEs. cbn [fst snd] in *. f_equal.
-    destruct HS as [W Dn _ _ SG CH]. cbn [app] in SG, CH.
+    destruct HS as [W Dn _ _ _ SG CH]. cbn [app] in SG, CH.
     rewrite (cheat_map vals T B' CH). f_equal.
     unfold r_blocks, blocks_spec. symmetry.
     destruct (seg_bound vals T 0 (map fst B') _ SG) as [EL BD].
